@@ -99,6 +99,7 @@ type Worker interface {
 
 	configs() configs
 	notifyToPullNextJobs()
+	wakeWaiters()
 }
 
 // newWorker creates a new worker with the given worker function and configurations
@@ -195,6 +196,12 @@ func (w *worker[T, JobType]) releaseWaiters(processing uint32) {
 		w.waiters.Broadcast()
 		w.mx.Unlock()
 	}
+}
+
+// wakeWaiters lets WaitUntilFinished callers re-evaluate their condition after
+// something other than a job completion emptied the queues (e.g. Purge).
+func (w *worker[T, JobType]) wakeWaiters() {
+	w.releaseWaiters(w.curProcessing.Load())
 }
 
 func (w *worker[T, JobType]) sendError(err error) {
